@@ -213,3 +213,14 @@ Proof.
         -- destruct (wf_link _ W _ _ EJ) as [Hpid _]. rewrite (static_pid _ Ep), Ht in Hpid. subst j. congruence.
     + apply (wf_t2l_dom _ W) in EM. congruence.
 Qed.
+
+(* ------------------------------------------------------------------ merge: the two result-class facts *)
+Lemma ps_merge_norename a b s' r : ps_merge a b false = OOk (s', r) -> r = [].
+Proof.
+  unfold ps_merge. cbv zeta.
+  match goal with |- context [match fst ?st with _ => _ end] => destruct (fst st) eqn:E end.
+  - intros H. inversion H. reflexivity.
+  - discriminate.
+Qed.
+Lemma ps_merge_rename_total a b : exists s' r, ps_merge a b true = OOk (s', r).
+Proof. unfold ps_merge. cbv zeta. eexists. eexists. reflexivity. Qed.
